@@ -565,7 +565,8 @@ fn add_ids(mathml: Element) -> Element {
 
     fn add_ids_to_all(mathml: Element, id_prefix: &str, count: usize) -> usize {
         let mut count = count;
-        if mathml.attribute("id").is_none() {
+        // an empty id (id='') identifies nothing: treat it like a missing id
+        if mathml.attribute_value("id").unwrap_or("").is_empty() {
             mathml.set_attribute_value("id", (id_prefix.to_string() + &count.to_string()).as_str());
             mathml.set_attribute_value("data-id-added", "true");
             count += 1;
